@@ -64,7 +64,7 @@ type Member struct {
 	infoSent      bool
 	notifInFlight int
 	notifCount    int
-	phase         string // open | closing | closed | opening (from the lifecycle callbacks)
+	phase         string          // open | closing | closed | opening (from the lifecycle callbacks)
 	hookScrape    map[string]bool // lifecycle callbacks inside which the application scrapes (C16)
 }
 
@@ -272,7 +272,7 @@ func (m *Member) createDcpAgent() *gocbcore.DCPAgent {
 	c := m.cfg
 	a, err := gocbcore.CreateDcpAgent(&gocbcore.DCPAgentConfig{
 		BucketName:         c.BucketName,
-		SeedConfig:         gocbcore.SeedConfig{MemdAddrs: []string{m.tag("d") + ".n0:11210"}},
+		SeedConfig:         gocbcore.SeedConfig{MemdAddrs: []string{m.tag("d") + ".n0:11210"}, HTTPAddrs: []string{m.tag("d") + ".n0:8091"}}, // go-dcp seeds its DCP agent with the mgmt addresses: the streaming config poller runs from the start
 		SecurityConfig:     m.w.security(),
 		CompressionConfig:  gocbcore.CompressionConfig{Enabled: true},
 		DCPConfig:          gocbcore.DCPConfig{BufferSize: 16 << 20, UseExpiryOpcode: m.w.cfg.versionAtLeast(6, 5, 0)},
